@@ -41,6 +41,7 @@ theorem allowed_ok {K : Kind} {ops : List Op} (h : Allowed K ops) : ∀ op ∈ o
   | tick _ _ => trivial
   | hb _ _ _ => trivial
   | reconcileCount => trivial
+  | restart => trivial
   | answer _ _ => trivial
   | setLimit _ => trivial
 
@@ -701,6 +702,7 @@ theorem allowedAny_ok {ops : List Op} (h : AllowedAny ops) : ∀ op ∈ ops, OpO
   | tick _ _ => trivial
   | hb _ _ _ => trivial
   | reconcileCount => trivial
+  | restart => trivial
   | answer _ _ => trivial
   | setLimit _ => trivial
 
